@@ -663,6 +663,11 @@ def general_module(ch, feat, nfuncs=8, host_funcs=0, with_trace=False, nglobals=
     for k, f in enumerate(extra):
         m.funcs.append(f)
         m.exports.append((b'r%d' % k, 'func', nimp + nfuncs + k))
+    # re-export some imported functions (the export wrapper then forwards to the host function)
+    for fi in range(nimp):
+        if fi != trace_idx and ch.below(3) == 1:
+            m.exports.append((b'xi%d' % fi, 'func', fi))
+            info.setdefault('reexported_imports', []).append(fi)
     return m, info
 
 
